@@ -2,7 +2,7 @@
    specification (Model/Denote.v) for all widths and values; part-select; processes; flip-flops. *)
 From Coq Require Import ZArith List Bool Lia ZifyBool.
 From V.Model Require Import Bits Shape Ast Denote PyRTL PyEval Stmt Process RtlilSem.
-From V.Proofs Require Import BitsP ExprP.
+From V.Proofs Require Import BitsP ShapeP ExprP.
 Import ListNotations.
 Open Scope Z_scope.
 
@@ -150,8 +150,8 @@ Proof. destruct b; simpl; lia. Qed.
 
 Lemma nval_range rho l : 0 <= nval rho l < 2 ^ nlen l.
 Proof.
-  induction l as [|n l IH]; simpl.
-  - unfold nlen; simpl. lia.
+  induction l as [|n l IH]; cbn [nval].
+  - change (nlen []) with 0. rewrite Z.pow_0_r. lia.
   - rewrite nlen_cons. pose proof (nlen_nonneg l). rewrite Z.pow_add_r by lia. change (2 ^ 1) with 2.
     pose proof (b2z_range01 (net_val rho n)). lia.
 Qed.
@@ -161,8 +161,8 @@ Proof. apply mask_small, nval_range. Qed.
 
 Lemma nval_app rho a b : nval rho (a ++ b) = nval rho a + 2 ^ nlen a * nval rho b.
 Proof.
-  induction a as [|n a IH]; simpl.
-  - unfold nlen; simpl. lia.
+  induction a as [|n a IH]; cbn [nval app].
+  - change (nlen []) with 0. rewrite Z.pow_0_r. lia.
   - rewrite IH, nlen_cons. pose proof (nlen_nonneg a). rewrite Z.pow_add_r by lia. change (2 ^ 1) with 2. ring.
 Qed.
 
@@ -293,13 +293,17 @@ Proof.
   - apply Nat.eqb_eq in H. now subst.
 Qed.
 
+Lemma shorten_s_rev_cons2 a b t :
+  shorten_s_rev (a :: b :: t) = if net_eqb a b then shorten_s_rev (b :: t) else a :: b :: t.
+Proof. reflexivity. Qed.
+
 (* MSB-first views: value of rev r *)
 Lemma shorten_s_rev_sval rho r : sval rho true (rev (shorten_s_rev r)) = sval rho true (rev r).
 Proof.
   induction r as [|a t IH]; [reflexivity|].
   destruct t as [|b t'].
   - reflexivity.
-  - cbn [shorten_s_rev]. destruct (net_eqb a b) eqn:E; [|reflexivity].
+  - rewrite shorten_s_rev_cons2. destruct (net_eqb a b) eqn:E; [|reflexivity].
     rewrite IH. simpl rev.
     pose proof (net_eqb_val rho a b E) as Hv.
     rewrite (sval_signed_last rho (rev t' ++ [b]) a), (sval_signed_last rho (rev t') b).
@@ -324,8 +328,8 @@ Qed.
 
 Lemma shorten_s_rev_len r : (length (shorten_s_rev r) <= length r)%nat.
 Proof.
-  induction r as [|a t IH]; simpl; [lia|]. destruct t as [|b t']; [simpl; lia|].
-  destruct (net_eqb a b); [|simpl; lia]. simpl in *. lia.
+  induction r as [|a t IH]; [simpl; lia|]. destruct t as [|b t']; [simpl; lia|].
+  rewrite shorten_s_rev_cons2. destruct (net_eqb a b); [|lia]. simpl length in *. lia.
 Qed.
 Lemma shorten_u_rev_len r : (length (shorten_u_rev r) <= length r)%nat.
 Proof. induction r as [|a t IH]; simpl; [lia|]. destruct (net_eqb a (NC false)); simpl; lia. Qed.
@@ -335,4 +339,733 @@ Proof.
   unfold shorten, nlen. rewrite rev_length. destruct sg.
   - pose proof (shorten_s_rev_len (rev l)). rewrite rev_length in *. lia.
   - pose proof (shorten_u_rev_len (rev l)). rewrite rev_length in *. lia.
+Qed.
+
+
+(* ====================================================================== *)
+(* rtlil.emit_operator: the emitted cells compute the NIR operator          *)
+(* ====================================================================== *)
+
+(* specification of the _nir.Operator kinds on bit patterns (w = width of the first input) *)
+Definition nir1 (o : nop1) (w x : Z) : Z :=
+  match o with
+  | N1Neg => mask w (- x)
+  | N1Not => ones w - x
+  | N1Bool | N1Ror => b2z (negb (x =? 0))
+  | N1Rand => b2z (x =? ones w)
+  | N1Rxor => parity x
+  end.
+
+Definition nir2 (o : nop2) (w x y : Z) : Z :=
+  match o with
+  | N2Add => mask w (x + y)
+  | N2Sub => mask w (x - y)
+  | N2Mul => mask w (x * y)
+  | N2DivU => if y =? 0 then 0 else mask w (x / y)
+  | N2DivS => if y =? 0 then 0 else mask w (ival true w x / ival true w y)
+  | N2ModU => if y =? 0 then 0 else mask w (x mod y)
+  | N2ModS => if y =? 0 then 0 else mask w (ival true w x mod ival true w y)
+  | N2Shl => mask w (x * 2 ^ y)
+  | N2ShrU => mask w (x / 2 ^ y)
+  | N2ShrS => mask w (ival true w x / 2 ^ y)
+  | N2And => Z.land x y
+  | N2Or => Z.lor x y
+  | N2Xor => Z.lxor x y
+  | N2Eq => b2z (x =? y)
+  | N2Ne => b2z (negb (x =? y))
+  | N2LtU => b2z (x <? y)
+  | N2GtU => b2z (y <? x)
+  | N2LeU => b2z (x <=? y)
+  | N2GeU => b2z (y <=? x)
+  | N2LtS => b2z (ival true w x <? ival true w y)
+  | N2GtS => b2z (ival true w y <? ival true w x)
+  | N2LeS => b2z (ival true w x <=? ival true w y)
+  | N2GeS => b2z (ival true w y <=? ival true w x)
+  end.
+
+Definition is_shift (o : nop2) : bool := match o with N2Shl | N2ShrU | N2ShrS => true | _ => false end.
+
+Lemma mask1_b2z b : mask 1 (b2z b) = b2z b.
+Proof. apply mask_small. destruct b; simpl; lia. Qed.
+
+(* the operand handed to a cell denotes what the NIR input denotes *)
+Lemma operand_ival rho l sg : ival sg (nlen (shorten l sg)) (nval rho (shorten l sg)) = sval rho sg l.
+Proof. exact (shorten_preserves rho l sg). Qed.
+
+Lemma sval_as_ival rho sg l : sval rho sg l = ival sg (nlen l) (nval rho l).
+Proof. reflexivity. Qed.
+
+Lemma ext_operand rho l sg w : 0 <= w <= nlen l ->
+  ext sg (nlen (shorten l sg)) (nval rho (shorten l sg)) w = mask w (nval rho l).
+Proof. intros H. unfold ext. rewrite operand_ival. apply mask_sval_le; auto. Qed.
+
+Lemma mask_sval' rho sg l : mask (nlen l) (sval rho sg l) = mask (nlen l) (nval rho l).
+Proof. rewrite mask_sval, mask_nval. reflexivity. Qed.
+
+Lemma guard_eq w x : 0 <= x < 2 ^ w -> (mask 1 (cell_reduce_bool w 1 x) =? 0) = (x =? 0).
+Proof.
+  intros. unfold cell_reduce_bool, cell_reduce_or. rewrite (mask_small w x) by auto.
+  destruct (x =? 0); reflexivity.
+Qed.
+
+Theorem emit_unary_sem rho o a : emit_unary rho o a = Some (nir1 o (nlen a) (nval rho a)).
+Proof.
+  pose proof (nlen_nonneg a) as Ha. pose proof (nval_range rho a) as Hr.
+  destruct o; unfold emit_unary, nop1_width, un_table, cell1, nir1.
+  - (* neg *) destruct (nlen (shorten a true) <? nlen (shorten a false)); f_equal; unfold cell_neg;
+      rewrite operand_ival; rewrite <- mask_opp by auto; rewrite mask_sval; reflexivity.
+  - (* not *) f_equal. unfold cell_not. rewrite ext_same by auto. rewrite mask_nval. reflexivity.
+  - f_equal. unfold cell_reduce_bool, cell_reduce_or. rewrite mask_nval. apply mask1_b2z.
+  - f_equal. unfold cell_reduce_or. rewrite mask_nval. apply mask1_b2z.
+  - f_equal. unfold cell_reduce_and. rewrite mask_nval. apply mask1_b2z.
+  - f_equal. unfold cell_reduce_xor. rewrite mask_nval. apply mask_small. pose proof (parity_range (nval rho a)). lia.
+Qed.
+
+(* free-signedness operators: both operands shortened with one common signedness *)
+Lemma choose_free o a b : free_sign o = true ->
+  exists sg, choose_operands o a b = (sg, sg, shorten a sg, shorten b sg).
+Proof.
+  intros H. unfold choose_operands. rewrite H.
+  destruct (bin_table o) as [[k asg] bsg].
+  match goal with |- context [if ?c then (true, true, _, _) else _] => destruct c end; eauto.
+Qed.
+
+Lemma choose_forced o a b : free_sign o = false -> forced o = true ->
+  choose_operands o a b = (snd (fst (bin_table o)), snd (bin_table o),
+                           shorten a (snd (fst (bin_table o))), shorten b (snd (bin_table o))).
+Proof.
+  intros H1 H2. unfold choose_operands. rewrite H1, H2. destruct (bin_table o) as [[k asg] bsg]. reflexivity.
+Qed.
+
+Lemma div_mask_small w x y : 0 <= w -> 0 <= x < 2 ^ w -> 0 <= y -> 0 <= x / 2 ^ y < 2 ^ w.
+Proof.
+  intros Hw Hx Hy. pose proof (pow2_pos y Hy). split.
+  - apply Z.div_pos; lia.
+  - apply Z.div_lt_upper_bound; [lia|]. nia.
+Qed.
+
+Ltac free_op o a b rho :=
+  let sg := fresh "sg" in let E := fresh "E" in
+  destruct (choose_free o a b eq_refl) as [sg E]; rewrite E; clear E; cbn [cell2];
+  f_equal.
+
+Theorem emit_binary_sem rho o a b :
+  (is_shift o = false -> nlen a = nlen b) ->
+  emit_binary rho o a b = Some (nir2 o (nlen a) (nval rho a) (nval rho b)).
+Proof.
+  intros Hlen. pose proof (nlen_nonneg a) as Ha. pose proof (nlen_nonneg b) as Hb.
+  pose proof (nval_range rho a) as Hra. pose proof (nval_range rho b) as Hrb.
+  destruct o; unfold emit_binary, nop2_width; cbn [bin_table is_divmod nir2];
+    try (specialize (Hlen eq_refl)).
+  - (* + *) free_op N2Add a b rho. unfold cell_add. rewrite andb_diag, !operand_ival.
+    apply mask_eq_add; auto. apply mask_sval'. rewrite Hlen. apply mask_sval'.
+  - (* - *) free_op N2Sub a b rho. unfold cell_sub. rewrite andb_diag, !operand_ival.
+    apply mask_eq_sub; auto. apply mask_sval'. rewrite Hlen. apply mask_sval'.
+  - (* * *) free_op N2Mul a b rho. unfold cell_mul. rewrite andb_diag, !operand_ival.
+    apply mask_eq_mul; auto. apply mask_sval'. rewrite Hlen. apply mask_sval'.
+  - (* u// *) rewrite (choose_forced N2DivU a b eq_refl eq_refl). cbn [bin_table fst snd cell2].
+    rewrite guard_eq by apply nval_range.
+    pose proof (shorten_preserves rho b false) as Hsb. rewrite !sval_unsigned in Hsb.
+    unfold cell_divfloor. cbn [andb]. rewrite !operand_ival, !sval_unsigned. rewrite Hsb.
+    pose proof (pow2_pos (nlen a) Ha).
+    destruct (nval rho b =? 0) eqn:E; [f_equal; apply mask_small; lia|reflexivity].
+  - (* s// *) rewrite (choose_forced N2DivS a b eq_refl eq_refl). cbn [bin_table fst snd cell2].
+    rewrite guard_eq by apply nval_range.
+    pose proof (shorten_preserves rho b true) as Hsb.
+    rewrite <- (sval_zero_iff rho true (shorten b true)), Hsb.
+    unfold cell_divfloor. cbn [andb]. rewrite !operand_ival. rewrite !sval_zero_iff.
+    rewrite (sval_as_ival rho true a), (sval_as_ival rho true b), Hlen.
+    pose proof (pow2_pos (nlen b) Hb).
+    destruct (nval rho b =? 0) eqn:E; [f_equal; apply mask_small; lia|reflexivity].
+  - (* u% *) rewrite (choose_forced N2ModU a b eq_refl eq_refl). cbn [bin_table fst snd cell2].
+    rewrite guard_eq by apply nval_range.
+    pose proof (shorten_preserves rho b false) as Hsb. rewrite !sval_unsigned in Hsb.
+    unfold cell_modfloor. cbn [andb]. rewrite !operand_ival, !sval_unsigned. rewrite Hsb.
+    pose proof (pow2_pos (nlen a) Ha).
+    destruct (nval rho b =? 0) eqn:E; [f_equal; apply mask_small; lia|reflexivity].
+  - (* s% *) rewrite (choose_forced N2ModS a b eq_refl eq_refl). cbn [bin_table fst snd cell2].
+    rewrite guard_eq by apply nval_range.
+    pose proof (shorten_preserves rho b true) as Hsb.
+    rewrite <- (sval_zero_iff rho true (shorten b true)), Hsb.
+    unfold cell_modfloor. cbn [andb]. rewrite !operand_ival. rewrite !sval_zero_iff.
+    rewrite (sval_as_ival rho true a), (sval_as_ival rho true b), Hlen.
+    pose proof (pow2_pos (nlen b) Hb).
+    destruct (nval rho b =? 0) eqn:E; [f_equal; apply mask_small; lia|reflexivity].
+  - (* << *) unfold choose_operands. cbn [bin_table free_sign forced].
+    pose proof (shorten_preserves rho b false) as Hsb. rewrite !sval_unsigned in Hsb.
+    destruct (nlen (shorten a true) <? nlen (shorten a false)); cbn [cell2]; f_equal; unfold cell_shl;
+      rewrite ext_operand by lia; rewrite mask_nval, mask_nval, Hsb; reflexivity.
+  - (* u>> *) rewrite (choose_forced N2ShrU a b eq_refl eq_refl). cbn [bin_table fst snd cell2]. f_equal.
+    unfold cell_shr. pose proof (shorten_len a false) as Hsl. pose proof (nlen_nonneg (shorten a false)).
+    rewrite Z.max_l by lia. rewrite ext_operand by lia. rewrite !mask_nval.
+    pose proof (shorten_preserves rho b false) as Hsb. rewrite !sval_unsigned in Hsb. rewrite Hsb. reflexivity.
+  - (* s>> *) rewrite (choose_forced N2ShrS a b eq_refl eq_refl). cbn [bin_table fst snd cell2]. f_equal.
+    unfold cell_sshr. rewrite operand_ival, mask_nval.
+    pose proof (shorten_preserves rho b false) as Hsb. rewrite !sval_unsigned in Hsb. rewrite Hsb. reflexivity.
+  - (* & *) unfold choose_operands. cbn [bin_table free_sign forced cell2]. f_equal. unfold cell_and. cbn [andb].
+    rewrite <- Hlen. rewrite !ext_same by auto. rewrite mask_nval. rewrite Hlen, mask_nval. reflexivity.
+  - (* | *) unfold choose_operands. cbn [bin_table free_sign forced cell2]. f_equal. unfold cell_or. cbn [andb].
+    rewrite <- Hlen. rewrite !ext_same by auto. rewrite mask_nval. rewrite Hlen, mask_nval. reflexivity.
+  - (* ^ *) unfold choose_operands. cbn [bin_table free_sign forced cell2]. f_equal. unfold cell_xor. cbn [andb].
+    rewrite <- Hlen. rewrite !ext_same by auto. rewrite mask_nval. rewrite Hlen, mask_nval. reflexivity.
+  - (* == *) free_op N2Eq a b rho. unfold cell_eq. rewrite andb_diag, mask1_b2z. f_equal.
+    set (w := Z.max (nlen (shorten a sg)) (nlen (shorten b sg))).
+    pose proof (nlen_nonneg (shorten a sg)). pose proof (nlen_nonneg (shorten b sg)).
+    rewrite <- (sval_inj rho sg a b Hlen), <- (shorten_preserves rho a sg), <- (shorten_preserves rho b sg).
+    unfold sval at 1 2.
+    rewrite <- (ext_preserves_value sg (nlen (shorten a sg)) (nval rho (shorten a sg)) w) by lia.
+    rewrite <- (ext_preserves_value sg (nlen (shorten b sg)) (nval rho (shorten b sg)) w) by lia.
+    destruct (ext sg (nlen (shorten a sg)) (nval rho (shorten a sg)) w =? ext sg (nlen (shorten b sg)) (nval rho (shorten b sg)) w) eqn:E.
+    + apply Z.eqb_eq in E. rewrite E. symmetry. apply Z.eqb_refl.
+    + symmetry. apply Z.eqb_neq. intros Hc. apply Z.eqb_neq in E. apply E.
+      rewrite <- (mask_small w (ext sg (nlen (shorten a sg)) _ w)) by (apply ext_range; lia).
+      rewrite <- (mask_small w (ext sg (nlen (shorten b sg)) _ w)) by (apply ext_range; lia).
+      rewrite <- (mask_ival sg w (ext sg (nlen (shorten a sg)) _ w)) by lia.
+      rewrite <- (mask_ival sg w (ext sg (nlen (shorten b sg)) _ w)) by lia. rewrite Hc. reflexivity.
+  - (* != *) free_op N2Ne a b rho. unfold cell_ne. rewrite andb_diag, mask1_b2z. f_equal. f_equal.
+    set (w := Z.max (nlen (shorten a sg)) (nlen (shorten b sg))).
+    pose proof (nlen_nonneg (shorten a sg)). pose proof (nlen_nonneg (shorten b sg)).
+    rewrite <- (sval_inj rho sg a b Hlen), <- (shorten_preserves rho a sg), <- (shorten_preserves rho b sg).
+    unfold sval at 1 2.
+    rewrite <- (ext_preserves_value sg (nlen (shorten a sg)) (nval rho (shorten a sg)) w) by lia.
+    rewrite <- (ext_preserves_value sg (nlen (shorten b sg)) (nval rho (shorten b sg)) w) by lia.
+    destruct (ext sg (nlen (shorten a sg)) (nval rho (shorten a sg)) w =? ext sg (nlen (shorten b sg)) (nval rho (shorten b sg)) w) eqn:E.
+    + apply Z.eqb_eq in E. rewrite E. symmetry. apply Z.eqb_refl.
+    + symmetry. apply Z.eqb_neq. intros Hc. apply Z.eqb_neq in E. apply E.
+      rewrite <- (mask_small w (ext sg (nlen (shorten a sg)) _ w)) by (apply ext_range; lia).
+      rewrite <- (mask_small w (ext sg (nlen (shorten b sg)) _ w)) by (apply ext_range; lia).
+      rewrite <- (mask_ival sg w (ext sg (nlen (shorten a sg)) _ w)) by lia.
+      rewrite <- (mask_ival sg w (ext sg (nlen (shorten b sg)) _ w)) by lia. rewrite Hc. reflexivity.
+  - rewrite (choose_forced N2LtU a b eq_refl eq_refl). cbn [bin_table fst snd cell2]. f_equal.
+    unfold cell_lt. cbn [andb]. rewrite !operand_ival, !sval_unsigned, mask1_b2z. reflexivity.
+  - rewrite (choose_forced N2GtU a b eq_refl eq_refl). cbn [bin_table fst snd cell2]. f_equal.
+    unfold cell_gt. cbn [andb]. rewrite !operand_ival, !sval_unsigned, mask1_b2z. reflexivity.
+  - rewrite (choose_forced N2LeU a b eq_refl eq_refl). cbn [bin_table fst snd cell2]. f_equal.
+    unfold cell_le. cbn [andb]. rewrite !operand_ival, !sval_unsigned, mask1_b2z. reflexivity.
+  - rewrite (choose_forced N2GeU a b eq_refl eq_refl). cbn [bin_table fst snd cell2]. f_equal.
+    unfold cell_ge. cbn [andb]. rewrite !operand_ival, !sval_unsigned, mask1_b2z. reflexivity.
+  - rewrite (choose_forced N2LtS a b eq_refl eq_refl). cbn [bin_table fst snd cell2]. f_equal.
+    unfold cell_lt. cbn [andb]. rewrite !operand_ival, mask1_b2z. unfold sval. rewrite Hlen. reflexivity.
+  - rewrite (choose_forced N2GtS a b eq_refl eq_refl). cbn [bin_table fst snd cell2]. f_equal.
+    unfold cell_gt. cbn [andb]. rewrite !operand_ival, mask1_b2z. unfold sval. rewrite Hlen. reflexivity.
+  - rewrite (choose_forced N2LeS a b eq_refl eq_refl). cbn [bin_table fst snd cell2]. f_equal.
+    unfold cell_le. cbn [andb]. rewrite !operand_ival, mask1_b2z. unfold sval. rewrite Hlen. reflexivity.
+  - rewrite (choose_forced N2GeS a b eq_refl eq_refl). cbn [bin_table fst snd cell2]. f_equal.
+    unfold cell_ge. cbn [andb]. rewrite !operand_ival, mask1_b2z. unfold sval. rewrite Hlen. reflexivity.
+Qed.
+
+
+(* ====================================================================== *)
+(* _ir.emit_rhs + rtlil.emit_operator = the Python-integer specification    *)
+(* ====================================================================== *)
+
+(* operands as emit_rhs returns them: a signed value has at least one bit *)
+Definition opd_ok (l : list net) (sg : bool) : Prop := sg = true -> l <> [].
+
+Lemma opd_wf l sg : opd_ok l sg -> wf_shape (Sh (nlen l) sg) = true.
+Proof.
+  intros H. unfold wf_shape; simpl. destruct sg.
+  - specialize (H eq_refl). destruct l; [congruence|]. rewrite nlen_cons. pose proof (nlen_nonneg l). lia.
+  - pose proof (nlen_nonneg l). lia.
+Qed.
+
+Lemma opd_in_range rho l sg : opd_ok l sg -> in_range (Sh (nlen l) sg) (sval rho sg l).
+Proof.
+  intros H. unfold sval. apply ival_range; [apply nlen_nonneg|].
+  intros ->. specialize (H eq_refl). destruct l; [congruence|]. rewrite nlen_cons. pose proof (nlen_nonneg l). lia.
+Qed.
+
+Lemma unify2_sgn a b : sgn (unify2 a b) = sgn a || sgn b.
+Proof. destruct a as [wa sa], b as [wb sb]. unfold unify2, unify. simpl. destruct sa, sb; reflexivity. Qed.
+
+Lemma pat_of rho sg l A : sval rho sg l = A -> mask (nlen l) (nval rho l) = mask (nlen l) A.
+Proof. intros <-. symmetry. apply mask_sval'. Qed.
+
+(* extension to a shape that contains the operand's shape keeps the value *)
+Lemma extend_to_shape rho l sg u : opd_ok l sg -> wf_shape u = true -> shape_le (Sh (nlen l) sg) u ->
+  nlen (extend l sg (width u)) = width u /\ sval rho (sgn u) (extend l sg (width u)) = sval rho sg l.
+Proof.
+  intros Hok Hwu Hle. pose proof (opd_wf l sg Hok) as Hwl.
+  apply (shape_le_char _ _ Hwl Hwu) in Hle. simpl in Hle. rewrite extend_len.
+  destruct sg.
+  - destruct Hle as [Hs Hw]. rewrite Hs. split; [lia|]. apply extend_preserves; auto.
+  - destruct (sgn u) eqn:Esu.
+    + split; [lia|]. apply extend_mixed. lia.
+    + split; [lia|]. apply extend_preserves. discriminate.
+Qed.
+
+Lemma unify_facts rho la sa lb sb : opd_ok la sa -> opd_ok lb sb ->
+  let u := unify2 (Sh (nlen la) sa) (Sh (nlen lb) sb) in
+  wf_shape u = true /\
+  nlen (extend la sa (width u)) = width u /\ nlen (extend lb sb (width u)) = width u /\
+  sval rho (sgn u) (extend la sa (width u)) = sval rho sa la /\
+  sval rho (sgn u) (extend lb sb (width u)) = sval rho sb lb.
+Proof.
+  intros Ha Hb u. pose proof (opd_wf la sa Ha) as Hwa. pose proof (opd_wf lb sb Hb) as Hwb.
+  pose proof (unify2_wf _ _ Hwa Hwb) as Hwu. fold u in Hwu.
+  destruct (extend_to_shape rho la sa u Ha Hwu (unify2_le_l _ _ Hwa Hwb)) as [H1 H2].
+  destruct (extend_to_shape rho lb sb u Hb Hwu (unify2_le_r _ _ Hwa Hwb)) as [H3 H4].
+  repeat split; auto.
+Qed.
+
+Lemma opd_ok_of_len l sg : (sg = true -> 0 < nlen l) -> opd_ok l sg.
+Proof. intros H Hs. apply nlen_pos_nonempty. auto. Qed.
+
+Lemma wf_signed_pos u : wf_shape u = true -> sgn u = true -> 0 < width u.
+Proof. unfold wf_shape. intros H Hs. rewrite Hs in H. lia. Qed.
+
+Theorem lower_op1_correct rho o la sa : opd_ok la sa -> (o = OS -> 0 < nlen la) ->
+  let A := sval rho sa la in
+  let rs := op1_shape o (Sh (nlen la) sa) in
+  lower_op1 rho o la sa = Some (mask (width rs) (den_op1 o (Sh (nlen la) sa) A), width rs, sgn rs).
+Proof.
+  intros Hok Hos A rs. pose proof (nlen_nonneg la) as Hl. pose proof (nval_range rho la) as Hr.
+  assert (HA : mask (nlen la) A = nval rho la) by apply mask_sval.
+  destruct o; unfold lower_op1, rs; cbn [op1_shape width sgn den_op1].
+  - (* ~ *) rewrite emit_unary_sem. cbn [nir1]. f_equal. f_equal. f_equal.
+    destruct sa; cbn [sgn].
+    + symmetry. destruct (mask_congr (nlen la) A Hl) as [k Hk]. rewrite HA in Hk.
+      replace (- A - 1) with ((ones (nlen la) - nval rho la) + (k - 1) * 2 ^ nlen la) by (unfold ones; lia).
+      rewrite mask_add_mul by auto. apply mask_small. unfold ones. lia.
+    + unfold A. rewrite sval_unsigned. symmetry. apply mask_small. unfold ones. lia.
+  - (* neg *) set (a2 := extend la sa (nlen la + 1)).
+    assert (Hn : nlen a2 = nlen la + 1) by (unfold a2; rewrite extend_len; lia).
+    rewrite emit_unary_sem. cbn [nir1]. rewrite Hn. f_equal. f_equal. f_equal.
+    rewrite <- (mask_opp _ (nval _ _)) by lia. rewrite <- (mask_opp _ A) by lia. f_equal. f_equal.
+    rewrite <- Hn. apply (pat_of rho sa). unfold a2. apply extend_preserves. exact Hok.
+  - (* bool *) rewrite emit_unary_sem. cbn [nir1]. rewrite mask1_b2z. unfold A. rewrite sval_zero_iff. reflexivity.
+  - rewrite emit_unary_sem. cbn [nir1]. rewrite mask1_b2z. unfold A. rewrite sval_zero_iff. reflexivity.
+  - rewrite emit_unary_sem. cbn [nir1]. rewrite mask1_b2z. fold (mask (nlen la) A). rewrite HA. reflexivity.
+  - rewrite emit_unary_sem. cbn [nir1]. fold (mask (nlen la) A). rewrite HA.
+    f_equal. f_equal. f_equal. symmetry. apply mask_small. pose proof (parity_range (nval rho la)). lia.
+  - (* u *) fold (mask (nlen la) A). rewrite HA, mask_nval. reflexivity.
+  - (* s *) specialize (Hos eq_refl). rewrite mask_sext by lia. rewrite HA. reflexivity.
+Qed.
+
+Lemma norm_mask_id s x : wf_shape s = true -> in_range s x -> norm s (mask (width s) x) = x.
+Proof.
+  intros Hwf Hr. unfold norm, wf_shape, in_range in *. destruct (sgn s).
+  - rewrite sext_mask by lia. apply sext_small; [lia|exact Hr].
+  - rewrite mask_idem by lia. apply mask_small; exact Hr.
+Qed.
+
+Lemma pydiv_zero_iff A B : pydiv A B = if B =? 0 then 0 else A / B.
+Proof. reflexivity. Qed.
+
+Theorem lower_op2_correct rho o la sa lb sb : opd_ok la sa -> opd_ok lb sb ->
+  (match o with OShl | OShr => sb = false | _ => True end) ->
+  let A := sval rho sa la in let B := sval rho sb lb in
+  let rs := op2_shape o (Sh (nlen la) sa) (Sh (nlen lb) sb) in
+  lower_op2 rho o la sa lb sb = Some (mask (width rs) (den_op2 o A B), width rs, sgn rs).
+Proof.
+  intros Hoa Hob Hsh A B rs.
+  pose proof (nlen_nonneg la) as Hla. pose proof (nlen_nonneg lb) as Hlb.
+  destruct (unify_facts rho la sa lb sb Hoa Hob) as [Hwu [Hna [Hnb [Hva Hvb]]]].
+  fold A in Hva. fold B in Hvb.
+  set (u := unify2 (Sh (nlen la) sa) (Sh (nlen lb) sb)) in *.
+  pose proof (wf_width_nonneg u Hwu) as Hwun.
+  assert (Hsu : sgn u = sa || sb) by exact (unify2_sgn _ _).
+  set (a' := extend la sa (width u)) in *. set (b' := extend lb sb (width u)) in *.
+  destruct o; unfold lower_op2, unify_bitwise, rs; cbn [op2_shape width sgn den_op2]; fold u; fold a'; fold b'.
+  - (* + *) set (a2 := extend a' (sgn u) (nlen a' + 1)). set (b2 := extend b' (sgn u) (nlen a' + 1)).
+    assert (Hoa' : opd_ok a' (sgn u)) by (apply opd_ok_of_len; intros Hs; pose proof (wf_signed_pos u Hwu Hs); lia).
+    assert (Hob' : opd_ok b' (sgn u)) by (apply opd_ok_of_len; intros Hs; pose proof (wf_signed_pos u Hwu Hs); lia).
+    assert (Hn2a : nlen a2 = width u + 1) by (unfold a2; rewrite extend_len; lia).
+    assert (Hn2b : nlen b2 = width u + 1) by (unfold b2; rewrite extend_len; lia).
+    rewrite emit_binary_sem by (intros _; lia). cbn [nir2]. rewrite Hn2a. f_equal. f_equal. f_equal.
+    apply mask_eq_add; [lia| |].
+    + rewrite <- Hn2a. apply (pat_of rho (sgn u)). unfold a2. rewrite extend_preserves by exact Hoa'. exact Hva.
+    + rewrite <- Hn2b. apply (pat_of rho (sgn u)). unfold b2. rewrite extend_preserves by exact Hob'. exact Hvb.
+  - (* - *) set (a2 := extend a' (sgn u) (nlen a' + 1)). set (b2 := extend b' (sgn u) (nlen a' + 1)).
+    assert (Hoa' : opd_ok a' (sgn u)) by (apply opd_ok_of_len; intros Hs; pose proof (wf_signed_pos u Hwu Hs); lia).
+    assert (Hob' : opd_ok b' (sgn u)) by (apply opd_ok_of_len; intros Hs; pose proof (wf_signed_pos u Hwu Hs); lia).
+    assert (Hn2a : nlen a2 = width u + 1) by (unfold a2; rewrite extend_len; lia).
+    assert (Hn2b : nlen b2 = width u + 1) by (unfold b2; rewrite extend_len; lia).
+    rewrite emit_binary_sem by (intros _; lia). cbn [nir2]. rewrite Hn2a. f_equal. f_equal. f_equal.
+    apply mask_eq_sub; [lia| |].
+    + rewrite <- Hn2a. apply (pat_of rho (sgn u)). unfold a2. rewrite extend_preserves by exact Hoa'. exact Hva.
+    + rewrite <- Hn2b. apply (pat_of rho (sgn u)). unfold b2. rewrite extend_preserves by exact Hob'. exact Hvb.
+  - (* * *) set (a2 := extend la sa (nlen la + nlen lb)). set (b2 := extend lb sb (nlen la + nlen lb)).
+    assert (Hn2a : nlen a2 = nlen la + nlen lb) by (unfold a2; rewrite extend_len; lia).
+    assert (Hn2b : nlen b2 = nlen la + nlen lb) by (unfold b2; rewrite extend_len; lia).
+    rewrite emit_binary_sem by (intros _; lia). cbn [nir2]. rewrite Hn2a. f_equal. f_equal. f_equal.
+    apply mask_eq_mul; [lia| |].
+    + rewrite <- Hn2a. apply (pat_of rho sa). unfold a2. apply extend_preserves. exact Hoa.
+    + rewrite <- Hn2b. apply (pat_of rho sb). unfold b2. apply extend_preserves. exact Hob.
+  - (* // *) pose proof (wf_signed_pos u Hwu) as Hpos. rewrite Hsu in *.
+    set (w := nlen la + (if sb then 1 else 0)).
+    assert (Hoa' : opd_ok a' (sa || sb)) by (apply opd_ok_of_len; intros Hs; specialize (Hpos Hs); lia).
+    assert (Hob' : opd_ok b' (sa || sb)) by (apply opd_ok_of_len; intros Hs; specialize (Hpos Hs); lia).
+    assert (Hwle : exists a2 b2, (if nlen a' <? w then (extend a' (sa || sb) w, extend b' (sa || sb) w) else (a', b')) = (a2, b2)
+                   /\ nlen a2 = nlen b2 /\ w <= nlen a2 /\ sval rho (sa || sb) a2 = A /\ sval rho (sa || sb) b2 = B).
+    { destruct (nlen a' <? w) eqn:E.
+      - exists (extend a' (sa || sb) w), (extend b' (sa || sb) w). rewrite !extend_len.
+        repeat split; [lia|lia| |]; rewrite extend_preserves; auto.
+      - exists a', b'. repeat split; auto; try lia. }
+    destruct Hwle as [a2 [b2 [Epair [Hn2 [Hw2 [Hv2a Hv2b]]]]]]. rewrite Epair.
+    destruct (sa || sb) eqn:Esg.
+    + rewrite emit_binary_sem by (intros _; exact Hn2). cbn [nir2]. f_equal. f_equal. f_equal.
+      rewrite <- (sval_zero_iff rho true b2), Hv2b. unfold pydiv.
+      fold (sval rho true a2). rewrite Hn2. fold (sval rho true b2). rewrite Hv2a, Hv2b, <- Hn2.
+      destruct (B =? 0); [reflexivity|]. apply mask_mask_le. lia.
+    + rewrite emit_binary_sem by (intros _; exact Hn2). cbn [nir2]. f_equal. f_equal. f_equal.
+      rewrite sval_unsigned in Hv2a, Hv2b. rewrite Hv2a, Hv2b. unfold pydiv.
+      destruct (B =? 0); [reflexivity|]. apply mask_mask_le. lia.
+  - (* % *) rewrite Hsu in *.
+    assert (Hwle : nlen lb <= width u).
+    { pose proof (opd_wf lb sb Hob) as Hwb. pose proof (opd_wf la sa Hoa) as Hwa.
+      pose proof (unify2_le_r _ _ Hwa Hwb) as Hle. fold u in Hle.
+      apply (shape_le_char _ _ Hwb Hwu) in Hle. simpl in Hle. destruct sb; [lia|destruct (sgn u); lia]. }
+    destruct (sa || sb) eqn:Esg.
+    + rewrite emit_binary_sem by (intros _; lia). cbn [nir2]. f_equal. f_equal. f_equal.
+      rewrite <- (sval_zero_iff rho true b'), Hvb. unfold pymod.
+      fold (sval rho true a'). rewrite Hna, <- Hnb. fold (sval rho true b'). rewrite Hva, Hvb.
+      destruct (B =? 0); [reflexivity|]. apply mask_mask_le. lia.
+    + rewrite emit_binary_sem by (intros _; lia). cbn [nir2]. f_equal. f_equal. f_equal.
+      rewrite sval_unsigned in Hva, Hvb. rewrite Hva, Hvb. unfold pymod.
+      destruct (B =? 0); [reflexivity|]. apply mask_mask_le. lia.
+  - (* & *) rewrite emit_binary_sem by (intros _; lia). cbn [nir2]. rewrite Hna. f_equal. f_equal. f_equal.
+    rewrite mask_land by auto. f_equal.
+    + rewrite <- Hna. rewrite <- mask_nval. apply (pat_of rho (sgn u)). exact Hva.
+    + rewrite <- Hnb. rewrite <- mask_nval. apply (pat_of rho (sgn u)). exact Hvb.
+  - (* | *) rewrite emit_binary_sem by (intros _; lia). cbn [nir2]. rewrite Hna. f_equal. f_equal. f_equal.
+    rewrite mask_lor by auto. f_equal.
+    + rewrite <- Hna. rewrite <- mask_nval. apply (pat_of rho (sgn u)). exact Hva.
+    + rewrite <- Hnb. rewrite <- mask_nval. apply (pat_of rho (sgn u)). exact Hvb.
+  - (* ^ *) rewrite emit_binary_sem by (intros _; lia). cbn [nir2]. rewrite Hna. f_equal. f_equal. f_equal.
+    rewrite mask_lxor by auto. f_equal.
+    + rewrite <- Hna. rewrite <- mask_nval. apply (pat_of rho (sgn u)). exact Hva.
+    + rewrite <- Hnb. rewrite <- mask_nval. apply (pat_of rho (sgn u)). exact Hvb.
+  - (* << *) subst sb. pose proof (pow2_pos (nlen lb) Hlb) as Hp.
+    set (a2 := extend la sa (nlen la + 2 ^ nlen lb - 1)).
+    assert (Hn2a : nlen a2 = nlen la + 2 ^ nlen lb - 1) by (unfold a2; rewrite extend_len; lia).
+    rewrite emit_binary_sem by (cbn; discriminate). cbn [nir2]. rewrite Hn2a. f_equal. f_equal. f_equal.
+    unfold B. rewrite sval_unsigned. apply mask_eq_mul; [lia| |reflexivity].
+    rewrite <- Hn2a. apply (pat_of rho sa). unfold a2. apply extend_preserves. exact Hoa.
+  - (* >> *) subst sb. unfold B. rewrite sval_unsigned. destruct sa.
+    + rewrite emit_binary_sem by (cbn; discriminate). cbn [nir2]. reflexivity.
+    + rewrite emit_binary_sem by (cbn; discriminate). cbn [nir2]. unfold A. rewrite sval_unsigned. reflexivity.
+  - (* == *) rewrite emit_binary_sem by (intros _; lia). cbn [nir2]. rewrite mask1_b2z. f_equal. f_equal. f_equal.
+    rewrite <- (sval_inj rho (sgn u) a' b') by lia. rewrite Hva, Hvb. reflexivity.
+  - (* != *) rewrite emit_binary_sem by (intros _; lia). cbn [nir2]. rewrite mask1_b2z. f_equal. f_equal. f_equal. f_equal.
+    rewrite <- (sval_inj rho (sgn u) a' b') by lia. rewrite Hva, Hvb. reflexivity.
+  - (* < *) destruct (sgn u) eqn:Esu; rewrite emit_binary_sem by (intros _; lia); cbn [nir2]; rewrite mask1_b2z.
+    + fold (sval rho true a'). rewrite Hna, <- Hnb. fold (sval rho true b'). rewrite Hva, Hvb. reflexivity.
+    + rewrite sval_unsigned in Hva, Hvb. rewrite Hva, Hvb. reflexivity.
+  - (* <= *) destruct (sgn u) eqn:Esu; rewrite emit_binary_sem by (intros _; lia); cbn [nir2]; rewrite mask1_b2z.
+    + fold (sval rho true a'). rewrite Hna, <- Hnb. fold (sval rho true b'). rewrite Hva, Hvb. reflexivity.
+    + rewrite sval_unsigned in Hva, Hvb. rewrite Hva, Hvb. reflexivity.
+  - (* > *) destruct (sgn u) eqn:Esu; rewrite emit_binary_sem by (intros _; lia); cbn [nir2]; rewrite mask1_b2z.
+    + fold (sval rho true a'). rewrite Hna, <- Hnb. fold (sval rho true b'). rewrite Hva, Hvb. reflexivity.
+    + rewrite sval_unsigned in Hva, Hvb. rewrite Hva, Hvb. reflexivity.
+  - (* >= *) destruct (sgn u) eqn:Esu; rewrite emit_binary_sem by (intros _; lia); cbn [nir2]; rewrite mask1_b2z.
+    + fold (sval rho true a'). rewrite Hna, <- Hnb. fold (sval rho true b'). rewrite Hva, Hvb. reflexivity.
+    + rewrite sval_unsigned in Hva, Hvb. rewrite Hva, Hvb. reflexivity.
+Qed.
+
+
+(* the bit pattern, read in the result shape, IS the Python-integer result *)
+Theorem lower_op2_norm rho o la sa lb sb : opd_ok la sa -> opd_ok lb sb ->
+  (match o with OShl | OShr => sb = false | _ => True end) ->
+  exists y, lower_op2 rho o la sa lb sb =
+              Some (y, width (op2_shape o (Sh (nlen la) sa) (Sh (nlen lb) sb)),
+                       sgn (op2_shape o (Sh (nlen la) sa) (Sh (nlen lb) sb))) /\
+            norm (op2_shape o (Sh (nlen la) sa) (Sh (nlen lb) sb)) y
+            = den_op2 o (sval rho sa la) (sval rho sb lb).
+Proof.
+  intros Hoa Hob Hsh. eexists. split; [apply lower_op2_correct; auto|].
+  destruct (op2_sound o (Sh (nlen la) sa) (Sh (nlen lb) sb) (sval rho sa la) (sval rho sb lb)
+              (opd_wf _ _ Hoa) (opd_wf _ _ Hob) (opd_in_range rho _ _ Hoa) (opd_in_range rho _ _ Hob)) as [Hwf Hr].
+  { destruct o; auto. }
+  apply norm_mask_id; auto.
+Qed.
+
+Theorem lower_op1_norm rho o la sa : opd_ok la sa -> (o = OS -> 0 < nlen la) ->
+  exists y, lower_op1 rho o la sa =
+              Some (y, width (op1_shape o (Sh (nlen la) sa)), sgn (op1_shape o (Sh (nlen la) sa))) /\
+            norm (op1_shape o (Sh (nlen la) sa)) y = den_op1 o (Sh (nlen la) sa) (sval rho sa la).
+Proof.
+  intros Hoa Hos. eexists. split; [apply lower_op1_correct; auto|].
+  destruct (op1_sound o (Sh (nlen la) sa) (sval rho sa la) (opd_wf _ _ Hoa) (opd_in_range rho _ _ Hoa) Hos) as [Hwf Hr].
+  apply norm_mask_id; auto.
+Qed.
+
+(* ====================================================================== *)
+(* rtlil.emit_part                                                         *)
+(* ====================================================================== *)
+Lemma part_offset rho off stride : 1 <= stride ->
+  let '(ow, ov) :=
+    if stride =? 1 then (nlen off, nval rho off)
+    else let sw := bits_for stride false in
+         let ow := nlen off + sw in
+         (ow, cell_mul false false (nlen off) sw ow (nval rho off) stride) in
+  mask ow ov = nval rho off * stride.
+Proof.
+  intros Hs. pose proof (nlen_nonneg off) as Hl. pose proof (nval_range rho off) as Hr.
+  destruct (stride =? 1) eqn:E.
+  - assert (stride = 1) by lia. subst. rewrite mask_nval. lia.
+  - cbv zeta. unfold bits_for. destruct (0 <? stride) eqn:E0; [|lia].
+    rewrite Z.add_0_r. pose proof (bit_length_nonneg stride) as Hb. pose proof (bit_length_upper stride ltac:(lia)) as Hu.
+    unfold cell_mul, ival. cbn [andb]. rewrite mask_nval. rewrite (mask_small (bit_length stride) stride) by lia.
+    rewrite mask_idem by lia. apply mask_small. rewrite Z.pow_add_r by lia. nia.
+Qed.
+
+(* under the sign-filling reading of $shift the lowering is right for every operand, offset, width and stride *)
+Theorem lower_part_signfill rho v vsg off w stride : 1 <= stride ->
+  emit_part_signfill rho v vsg off w stride = bits_at (sval rho vsg v) (nval rho off * stride) w.
+Proof.
+  intros Hs. unfold emit_part_signfill, emit_part_with. pose proof (part_offset rho off stride Hs) as Ho.
+  destruct (if stride =? 1 then _ else _) as [ow ov]. unfold cell_shift_signfill. rewrite Ho. reflexivity.
+Qed.
+
+(* under the manual's reading ("logical shift"; A_SIGNED only extends A to max(A_WIDTH, Y_WIDTH)) it is right
+   exactly when no bit above that width is selected from a negative value *)
+Theorem lower_part_correct rho v vsg off w stride : 0 <= w -> 1 <= stride ->
+  (vsg = false \/ 0 <= sval rho vsg v \/ nval rho off * stride + w <= Z.max w (nlen v)) ->
+  emit_part rho v vsg off w stride = bits_at (sval rho vsg v) (nval rho off * stride) w.
+Proof.
+  intros Hw Hs Hc. unfold emit_part, emit_part_with. pose proof (part_offset rho off stride Hs) as Ho.
+  destruct (if stride =? 1 then _ else _) as [ow ov]. unfold cell_shift_logical, cell_shr. rewrite Ho.
+  pose proof (nlen_nonneg v) as Hl. pose proof (nval_range rho off) as Hro.
+  set (O := nval rho off * stride) in *. assert (HO : 0 <= O) by (unfold O; nia).
+  set (M := Z.max w (nlen v)). unfold ext. fold (sval rho vsg v). set (S := sval rho vsg v) in *.
+  unfold bits_at. fold (mask w (mask M S / 2 ^ O)). fold (mask w (S / 2 ^ O)).
+  assert (Hnonneg : 0 <= S -> mask M S = S).
+  { intros H0. apply mask_small. split; auto.
+    pose proof (ival_range vsg (nlen v) (nval rho v) Hl) as Hr. unfold in_range in Hr; simpl in Hr.
+    assert (S < 2 ^ nlen v).
+    { unfold S, sval. destruct vsg.
+      - destruct (Z.eq_dec (nlen v) 0) as [E0|E0].
+        + rewrite E0, ival_w0. simpl. lia.
+        + specialize (Hr ltac:(intros; lia)). pose proof (pow2_mono (nlen v - 1) (nlen v) ltac:(lia)). lia.
+      - specialize (Hr ltac:(discriminate)). lia. }
+    pose proof (pow2_mono (nlen v) M ltac:(unfold M; lia)). lia. }
+  destruct Hc as [Hc|[Hc|Hc]].
+  - subst vsg. rewrite Hnonneg; auto. unfold S. rewrite sval_unsigned. pose proof (nval_range rho v). lia.
+  - rewrite Hnonneg; auto.
+  - apply Z.bits_inj'. intros i Hi. rewrite !testbit_mask by auto.
+    destruct (i <? w) eqn:Ei; [|reflexivity]. cbn [andb].
+    rewrite !testbit_div_pow2 by auto. rewrite testbit_mask by (unfold M; lia).
+    replace (i + O <? M) with true by (symmetry; apply Z.ltb_lt; fold M in Hc; lia). reflexivity.
+Qed.
+
+Theorem lower_part_refuted : exists rho v vsg off w stride,
+  0 <= w /\ 1 <= stride /\ emit_part rho v vsg off w stride <> bits_at (sval rho vsg v) (nval rho off * stride) w.
+Proof.
+  exists (fun _ => true), [NV 0%nat], true, [NC true], 1, 1. split; [lia|split; [lia|]]. vm_compute. discriminate.
+Qed.
+
+(* ====================================================================== *)
+(* flip-flops                                                              *)
+(* ====================================================================== *)
+Lemma ones_eq w : ones w = Z.ones w.
+Proof. unfold ones. rewrite Z.ones_equiv. lia. Qed.
+
+Lemma put_full w d init : 0 <= w -> 0 <= d < 2 ^ w -> put w d 0 w init = mask w init.
+Proof.
+  intros Hw Hd. rewrite <- (mask_small w d Hd). unfold put. rewrite !Z.shiftl_0_r, Z.land_diag, ones_eq.
+  apply Z.bits_inj'. intros i Hi. rewrite Z.lor_spec, !Z.land_spec, Z.lnot_spec by auto.
+  rewrite Z.testbit_ones_nonneg by auto. rewrite !testbit_mask by auto.
+  destruct (i <? w), (Z.testbit d i), (Z.testbit init i); reflexivity.
+Qed.
+
+(* $dff with the reset assignment appended last (sync-reset domain, signal not reset-less):
+   on the active edge the register takes init under reset, else what the user statements computed; no edge: holds *)
+Theorem dff_sync_reset w q d_user init rst clk_edge : 0 <= w -> 0 <= d_user < 2 ^ w ->
+  dff_next q (d_with_sync_reset w d_user init rst) clk_edge =
+  if clk_edge then (if rst then mask w init else d_user) else q.
+Proof. intros Hw Hd. unfold dff_next, d_with_sync_reset. destruct clk_edge, rst; auto. apply put_full; auto. Qed.
+
+(* the simulator's process (Model/Process.v sync_process) for a signal driven on all its bits: the same function of
+   (reset, value computed by the statements) — so $dff = simulator at every active edge *)
+Theorem dff_matches_sync_process tab ss r st i :
+  stmts_mask ss i <> 0 -> sd_reset_less (tab i) = false ->
+  let nx1 := exec_rtl_list (s_curr st) ss (s_next st) in
+  let rst := negb (Z.land 1 (s_curr st r) =? 0) in
+  s_next (sync_process tab ss (Some r) st) i =
+  slot_update (s_next st i) (if rst then sd_init (tab i) else nx1 i) (update_mask (sd_shape (tab i)) (stmts_mask ss i)).
+Proof.
+  intros Hm Hrl nx1 rst. unfold sync_process. cbn [s_next].
+  destruct (stmts_mask ss i =? 0) eqn:E; [lia|]. cbn [negb]. rewrite Hrl. cbn [negb]. rewrite !andb_true_r.
+  fold rst. destruct rst; reflexivity.
+Qed.
+
+(* $adff: while ARST is high the register holds the reset value, whatever the clock does *)
+Theorem adff_reset w q d init clk_edge : adff_next w q d init clk_edge true = mask w init.
+Proof. reflexivity. Qed.
+Theorem adff_no_reset w q d init clk_edge : adff_next w q d init clk_edge false = dff_next q d clk_edge.
+Proof. reflexivity. Qed.
+
+(* F7: on a reset rise WITHOUT a clock edge the simulator runs the whole sync process; a reset-less signal of an
+   async-reset domain (lowered to a plain $dff, which holds) then differs: a = Signal(4, reset_less), a <= a + 1 *)
+Theorem async_reset_rise_refuted : exists tab ss r st i,
+  sd_reset_less (tab i) = true /\
+  s_next (sync_process tab ss (Some r) st) i <> dff_next (s_curr st i) (s_next (sync_process tab ss (Some r) st) i) false.
+Proof.
+  exists (fun _ => Build_sigdesc (Sh 4 false) 0 true),
+         [SAssign (ESig 0 (Sh 4 false)) (EOp2 OAdd (ESig 0 (Sh 4 false)) (EConst 1 (Sh 1 false)))],
+         1%nat,
+         (Build_slots (fun j => match j with O => 3 | _ => 1 end) (fun j => match j with O => 3 | _ => 1 end)),
+         0%nat.
+  split; [reflexivity|]. vm_compute. discriminate.
+Qed.
+
+
+(* ====================================================================== *)
+(* processes: nested switch/case = the flat conditional assignment list     *)
+(* ====================================================================== *)
+Section atree_ind'.
+  Variable P : atree -> Prop.
+  Hypothesis HA : forall s vw v, P (TAssign s vw v).
+  Hypothesis HS : forall selw sel cs, Forall (fun c => Forall P (snd c)) cs -> P (TSwitch selw sel cs).
+  Fixpoint atree_ind' (t : atree) : P t :=
+    match t with
+    | TAssign s vw v => HA s vw v
+    | TSwitch selw sel cs =>
+        HS selw sel cs
+          ((fix go (cs : list (list pattern * list atree)) : Forall (fun c => Forall P (snd c)) cs :=
+              match cs with
+              | [] => Forall_nil _
+              | c :: cs' =>
+                  Forall_cons c
+                    ((fix go2 (ts : list atree) : Forall P ts :=
+                        match ts with
+                        | [] => Forall_nil _
+                        | t' :: ts' => Forall_cons t' (atree_ind' t') (go2 ts')
+                        end) (snd c))
+                    (go cs')
+              end) cs)
+    end.
+End atree_ind'.
+
+Definition case_hit (sel : Z) (ps : list pattern) : bool :=
+  match ps with [] => true | p0 :: l => existsb (fun p => pat_sem p sel) (p0 :: l) end.
+
+Fixpoint run_trees (w : Z) (ts : list atree) (acc : Z) : Z :=
+  match ts with [] => acc | t :: ts' => run_trees w ts' (exec_atree w t acc) end.
+Fixpoint go_cases (w sel : Z) (cs : list (list pattern * list atree)) (acc : Z) : Z :=
+  match cs with
+  | [] => acc
+  | c :: cs' => if case_hit sel (fst c) then run_trees w (snd c) acc else go_cases w sel cs' acc
+  end.
+Fixpoint flat_trees (en : bool) (ts : list atree) : list (bool * Z * Z * Z) :=
+  match ts with [] => [] | t :: ts' => flat_atree en t ++ flat_trees en ts' end.
+Fixpoint flat_cases (en : bool) (sel : Z) (cs : list (list pattern * list atree)) (still : bool) : list (bool * Z * Z * Z) :=
+  match cs with
+  | [] => []
+  | c :: cs' => flat_trees (en && still && case_hit sel (fst c)) (snd c)
+                ++ flat_cases en sel cs' (still && negb (case_hit sel (fst c)))
+  end.
+
+Lemma run_fix w ts : forall acc,
+  (fix run (ts : list atree) (acc : Z) : Z :=
+     match ts with [] => acc | t' :: ts' => run ts' (exec_atree w t' acc) end) ts acc = run_trees w ts acc.
+Proof. induction ts as [|t ts IH]; intros acc; simpl; auto. Qed.
+
+Lemma exec_switch w selw sel cs acc : exec_atree w (TSwitch selw sel cs) acc = go_cases w sel cs acc.
+Proof.
+  induction cs as [|c cs IH]; [reflexivity|].
+  cbn [go_cases]. rewrite <- IH, <- run_fix. reflexivity.
+Qed.
+
+Lemma flat_run_fix en ts :
+  (fix run (ts : list atree) : list (bool * Z * Z * Z) :=
+     match ts with [] => [] | t' :: ts' => flat_atree en t' ++ run ts' end) ts = flat_trees en ts.
+Proof. induction ts as [|t ts IH]; simpl; auto. rewrite IH. reflexivity. Qed.
+
+Lemma flat_switch_gen en sel cs : forall still,
+  (fix go (cs : list (list pattern * list atree)) (still : bool) : list (bool * Z * Z * Z) :=
+     match cs with
+     | [] => []
+     | c :: cs' =>
+         let m := match fst c with [] => true | ps => existsb (fun p => pat_sem p sel) ps end in
+         let sub := en && still && m in
+         (fix run (ts : list atree) : list (bool * Z * Z * Z) :=
+            match ts with [] => [] | t' :: ts' => flat_atree sub t' ++ run ts' end) (snd c)
+         ++ go cs' (still && negb m)
+     end) cs still = flat_cases en sel cs still.
+Proof.
+  induction cs as [|c cs IH]; intros still; [reflexivity|].
+  cbn [flat_cases]. rewrite <- IH. cbv zeta. rewrite flat_run_fix. reflexivity.
+Qed.
+
+Lemma flat_switch en selw sel cs : flat_atree en (TSwitch selw sel cs) = flat_cases en sel cs true.
+Proof. simpl. apply flat_switch_gen. Qed.
+
+Lemma exec_flat_app w l1 l2 acc : exec_flat w (l1 ++ l2) acc = exec_flat w l2 (exec_flat w l1 acc).
+Proof. unfold exec_flat. apply fold_left_app. Qed.
+
+Lemma flat_atree_sem w t : forall en acc, exec_flat w (flat_atree en t) acc = if en then exec_atree w t acc else acc.
+Proof.
+  induction t as [s vw v|selw sel cs IH] using atree_ind'; intros en acc.
+  - simpl. destruct en; reflexivity.
+  - rewrite flat_switch, exec_switch.
+    assert (Htrees : forall ts, Forall (fun t => forall en acc, exec_flat w (flat_atree en t) acc = if en then exec_atree w t acc else acc) ts ->
+               forall en acc, exec_flat w (flat_trees en ts) acc = if en then run_trees w ts acc else acc).
+    { induction ts as [|t ts IHts]; intros Hf en' acc'; [destruct en'; reflexivity|].
+      inversion Hf as [|? ? Ht Hts]; subst. cbn [flat_trees run_trees]. rewrite exec_flat_app, Ht, IHts by auto.
+      destruct en'; reflexivity. }
+    assert (Hgen : forall still acc, exec_flat w (flat_cases en sel cs still) acc
+                                    = if en && still then go_cases w sel cs acc else acc).
+    { induction cs as [|c cs IHcs]; intros still acc'.
+      - simpl. destruct (en && still); reflexivity.
+      - inversion IH as [|? ? Hc Hcs]; subst. cbn [flat_cases go_cases].
+        rewrite exec_flat_app, (Htrees _ Hc), (IHcs Hcs).
+        destruct en, still, (case_hit sel (fst c)); reflexivity. }
+    rewrite Hgen. rewrite andb_true_r. reflexivity.
+Qed.
+
+Lemma exec_atrees_run w ts : forall acc, exec_atrees w ts acc = run_trees w ts acc.
+Proof. unfold exec_atrees. induction ts as [|t ts IH]; intros acc; simpl; auto. Qed.
+
+Lemma flat_atrees_trees en ts : flat_atrees en ts = flat_trees en ts.
+Proof. unfold flat_atrees. induction ts as [|t ts IH]; simpl; auto. rewrite IH. reflexivity. Qed.
+
+(* the RTLIL process (nested switch/case, first matching case, later statements override earlier ones) computes
+   what the NIR assignment list says: default, then every assignment in order, each iff its Match conditions hold *)
+Theorem process_equiv w ts acc : exec_atrees w ts acc = exec_flat w (flat_atrees true ts) acc.
+Proof.
+  rewrite exec_atrees_run, flat_atrees_trees. revert acc.
+  induction ts as [|t ts IH]; intros acc; [reflexivity|].
+  cbn [run_trees flat_trees]. rewrite exec_flat_app, flat_atree_sem. apply IH.
+Qed.
+
+(* ---- last active assignment wins, per bit ---- *)
+Lemma testbit_ones w i : 0 <= w -> 0 <= i -> Z.testbit (ones w) i = (i <? w).
+Proof. intros. rewrite ones_eq. apply Z.testbit_ones_nonneg; auto. Qed.
+
+Lemma put_bit w old s vw v i : 0 <= w -> 0 <= s -> 0 <= vw -> 0 <= i ->
+  Z.testbit (put w old s vw v) i =
+  if (s <=? i) && (i <? s + vw) && (i <? w) then Z.testbit v (i - s) else Z.testbit old i.
+Proof.
+  intros Hw Hs Hvw Hi. unfold put.
+  rewrite Z.lor_spec, !Z.land_spec, Z.lnot_spec, !Z.land_spec by auto.
+  rewrite !Z.shiftl_spec by auto. rewrite (testbit_ones w i) by auto.
+  destruct (s <=? i) eqn:E1.
+  - rewrite (testbit_ones vw (i - s)) by lia. rewrite testbit_mask by auto.
+    replace (i - s <? vw) with (i <? s + vw) by lia.
+    destruct (i <? s + vw), (i <? w), (Z.testbit old i), (Z.testbit v (i - s)); reflexivity.
+  - rewrite !(Z.testbit_neg_r _ (i - s)) by lia. cbn [andb negb]. rewrite andb_true_r, orb_false_r. reflexivity.
+Qed.
+
+(* the bit, searching the assignments from the last one backwards *)
+Fixpoint bit_of (w i : Z) (rl : list (bool * Z * Z * Z)) (acc : Z) : bool :=
+  match rl with
+  | [] => Z.testbit acc i
+  | (c, s, vw, v) :: r =>
+      if c && (s <=? i) && (i <? s + vw) && (i <? w) then Z.testbit v (i - s) else bit_of w i r acc
+  end.
+
+Definition flat_ok (l : list (bool * Z * Z * Z)) : Prop :=
+  Forall (fun a : bool * Z * Z * Z => let '(_, s, vw, _) := a in 0 <= s /\ 0 <= vw) l.
+
+Theorem last_assignment_wins w l acc i : 0 <= w -> 0 <= i -> flat_ok l ->
+  Z.testbit (exec_flat w l acc) i = bit_of w i (rev l) acc.
+Proof.
+  intros Hw Hi. induction l as [|a l IH] using rev_ind; intros Hok; [reflexivity|].
+  rewrite exec_flat_app, rev_app_distr. apply Forall_app in Hok. destruct Hok as [Hl Ha].
+  inversion Ha as [|? ? Ha1 _]; subst. destruct a as [[[c s] vw] v]. destruct Ha1 as [Hs Hvw].
+  cbn [rev app bit_of exec_flat fold_left]. destruct c; cbn [andb].
+  - rewrite put_bit by auto. rewrite (IH Hl). reflexivity.
+  - apply IH; auto.
 Qed.
